@@ -29,6 +29,8 @@ type Run struct {
 	Seed  uint64
 	T     *Tape
 	TB    *testing.T // for testing/synctest bubbles
+	// WallClockWorld: see Eventf
+	WallClockWorld bool
 
 	// Focus restricts enumerations inside the run to one item (replay/shrink).
 	Focus string
@@ -60,6 +62,21 @@ func (r *Run) Thorough() bool { return r.Tier == "thorough" }
 // determinism self-test; logging never draws from the tape or reads a clock.
 func (r *Run) Eventf(format string, a ...any) {
 	s := fmt.Sprintf(format, a...)
+	if r.WallClockWorld {
+		// the world of this run is built around the wall clock's hour: certificate encodings (and with them
+		// lengths and offsets that appear in event texts) differ from one hour to the next, so only the
+		// NUMBER of events enters the digest; the texts are kept in the trace
+		s2 := "event"
+		r.nEvents++
+		if r.KeepTrace && len(r.Trace) < 400 {
+			r.Trace = append(r.Trace, s)
+		}
+		h := sha256.New()
+		h.Write(r.digest[:])
+		h.Write([]byte(s2))
+		copy(r.digest[:], h.Sum(nil))
+		return
+	}
 	h := sha256.New()
 	h.Write(r.digest[:])
 	h.Write([]byte(s))
